@@ -11,13 +11,33 @@ CHECKS = {
    note=NOTE_COMMON + 'IEEE rounding is not modelled (model rows are exact rationals of the float inputs; agreement to 1e-9); order-0 rows are not sampled on interior knots (float rescaling may flip a half-open cell); the slope of the continuation is tied to the derivative only through the correspondence and a finite-difference oracle, not by a theorem.',
    technique='Lean 4 theorems (induction on the Cox-de Boor recursion, telescoping sums) + exact-rational differential correspondence with b_spline_basis',
    ref='7/C03'),
+ 'C05': dict(
+   text='Theorems for all n and all coefficient vectors over any linear ordered commutative ring: each constraint matrix is symmetric PSD, its quadratic form at the coefficients is the sum of squared violating first (monotone) / second (convex, concave) differences, and it is zero iff the coefficients satisfy the constraint. Tied to /repo by exact comparison with pygam.penalties.monotonic_*/convex/concave and Term/TensorTerm/TermList.build_constraints (per-fibre matrices, x1e9, conditioning ridge), and at fit level by shape checks of partial_dependence on sorted grids (domain and linear continuation) for converged constrained fits of five model classes on contradicting data.',
+   note=NOTE_COMMON + 'PARTIAL: the function-level implication (non-decreasing / convex coefficients => monotone / convex spline) and the bound on the residual violation of a converged fit are validated by the fit-level stream (violation <= 1e-6 (1 + range) on 401-point grids), not proved; rounding of the 1e9-weighted solve is not modelled.',
+   technique='Lean 4 theorems (sum-of-squares algebra) + exact differential correspondence of constraint matrices + fit-level shape oracle',
+   ref='7/C05'),
+ 'C06': dict(
+   text='Theorems over R for all five families, every scale > 0, levels, valid (y, mu): unit deviance >= 0, = 0 iff y = mu, HasDerivAt = -2 (y - mu) / V(mu) including the y = 0 and y = levels branches, deviance = 2 scale (loglik at saturated mean - loglik at mu) for the modelled log-density kernel, weights multiply the deviance and divide V, sampler parameterisation has mean mu and variance scale V(mu) w.r.t. the documented moments of the NumPy samplers, phi = weighted Pearson / (n - edof) or the supplied scale. Tied to /repo by comparing the Float model with Distribution.V / deviance / log_pdf differences / phi on log-uniform grids incl. boundaries and by capturing the exact arguments handed to numpy.random.*.',
+   note=NOTE_COMMON + 'Trusted: lgamma normalisers of SciPy log-densities (cancel in differences), the documented first two moments of numpy.random.{normal,binomial,poisson,gamma,wald} (moment checks of real draws are supporting evidence only), libm exp/log vs Lean Float to 1e-11.',
+   technique='Lean 4 theorems over R (Mathlib calculus) + Float-model differential correspondence + sampler-argument capture',
+   ref='7/C06'),
+ 'C07': dict(
+   text='Theorems over R for identity, log, logit(levels), inverse, inverse-squared on their open domains: inverse link after link and link after inverse link are identities (bijection), HasDerivAt(link) = gradient, strict monotonicity (direction per link), gradient never zero; and over an IEEE special-value model: check_y rejects exactly the targets outside the closed domain (and every non-finite / empty target), with the table reported by get_link_domain. Tied to /repo by Float-model comparison with Link.link/mu/gradient, exact special-value comparison, check_y verdicts and fit exception classes for every link x distribution.',
+   note=NOTE_COMMON + 'IEEE special-value behaviour of NumPy is modelled (XR), not verified; libm vs Lean Float agreement to 1e-11; logit with a non-binomial distribution (no `levels`) is outside the quantifier and not modelled.',
+   technique='Lean 4 theorems over R (Mathlib calculus, order) + IEEE special-value model + Float differential correspondence',
+   ref='7/C07'),
  'C04': dict(
-   text='Theorems for all n, d, c over any commutative (ordered) ring: quadratic form of derivative / periodic / l2 penalties = sum of squared (cyclic) differences; symmetric, PSD, constants and polynomials of degree < d unpenalised; lam-weighted sums. Tied to /repo by exact integer comparison of the model matrices with pygam.penalties.* and an exact quadratic-form oracle.',
+   text='Theorems for all n, d, c over any commutative (ordered) ring: quadratic form of derivative / periodic / l2 penalties = sum of squared (cyclic) differences; symmetric, PSD, constants and polynomials of degree < d unpenalised; a term penalty = lam-weighted sum with the auto-resolution table; Kronecker lifts = fibre roughness in the row-major coefficient order of the columns; block-diagonal assembly with a zero intercept block. Tied to /repo by exact comparison of the model matrices with pygam.penalties.* and Term/TensorTerm/TermList.build_penalties() on random term programs, plus exact quadratic-form / fibre oracles.',
    note=NOTE_COMMON + 'Exact integer arithmetic; no floating-point assumptions. penalties.periodic is a recorded known finding (known_findings.json).',
    technique='Lean 4 theorems (induction / big-operator algebra) + differential correspondence of the executable model with pygam.penalties',
    ref='7/C04'),
+ 'C16': dict(
+   text='Theorems for every data row, term configuration and term list: intercept = 1, linear = raw feature, spline = basis row x by-variable, factor = indicator of the category under the knots compile derives (dummy coding drops the first), tensor = row-wise Kronecker product with the last marginal fastest (row-major index), model matrix = concatenation in term order, coefficient index blocks contiguous, ordered (disjoint) and covering. Tied to /repo by exact rational comparison of model rows with TermList.build_columns / term.build_columns / get_coef_indices on random term programs with query data different from the training data, plus a NumPy oracle of the documented rule.',
+   note=NOTE_COMMON + 'Spline columns are those of C03 (same model function); order-0 / cyclic spline features are not sampled within 1e-6 of a jump.',
+   technique='Lean 4 theorems (list induction, Nat div/mod index algebra, C03 basis lemmas) + exact-rational differential correspondence on random term programs',
+   ref='7/C16'),
 }
-PENDING = ['C01','C02','C05','C06','C07','C08','C09','C10','C11','C12','C13','C14','C15','C16','C17','C18','C19','C20']
+PENDING = ['C01','C02','C08','C09','C10','C11','C12','C13','C14','C15','C17','C18','C19','C20']
 
 def main():
     checks = []
